@@ -4,6 +4,7 @@ import (
 	"fmt"
 	"math/rand"
 	"strings"
+	"unicode/utf8"
 
 	"google.golang.org/protobuf/reflect/protoreflect"
 
@@ -19,7 +20,7 @@ var (
 	verbSufs  = []string{"get", "cancel", "v", "x1"}
 	// values for string captures: every documented path character class,
 	// single characters, unicode letters, and words colliding with literals
-	strVals = []string{"x", "ab", "v1", "bk", "sh", "q", "it", "é", "a.b", "a-b", "~", "a!b", "$&'", "(a)", "*", "a+b", "a,b", "a;b", "k=v", "@me", "1", "true", "0", "ü1", "get", "Z_9", ".", "..", "...", ".a", "ß", "½"}
+	strVals = []string{"x", "ab", "v1", "bk", "sh", "q", "it", "é", "a.b", "a-b", "~", "a!b", "$&'", "(a)", "*", "a+b", "a,b", "a;b", "k=v", "@me", "1", "true", "0", "ü1", "get", "Z_9", ".", "..", "...", ".a", "ß", "½", strings.Repeat("v", 64), strings.Repeat("v", 63) + "é", strings.Repeat("V", 200)}
 )
 
 var typVals = map[protoreflect.Kind][]string{
@@ -63,7 +64,17 @@ type genOpts struct {
 
 func pick(rng *rand.Rand, s []string) string { return s[rng.Intn(len(s))] }
 
+// long literals around buffer-ish sizes; each is a prefix of the next, so a
+// lookup that truncates keys confuses siblings
+var longLits = func() []string {
+	l63 := "l" + strings.Repeat("o", 61) + "g"
+	return []string{l63, l63 + "x", l63 + "xy", l63 + strings.Repeat("z", 37), strings.Repeat("長", 22), strings.Repeat("k", 31) + "e", strings.Repeat("k", 32), strings.Repeat("w", 127), strings.Repeat("w", 128), strings.Repeat("W", 300)}
+}()
+
 func (o genOpts) lit(rng *rand.Rand) string {
+	if rng.Intn(30) == 0 {
+		return pick(rng, longLits)
+	}
 	for {
 		l := pick(rng, lits)
 		if len(l) == 1 && !o.OneLetter {
@@ -129,7 +140,11 @@ func (o genOpts) genTemplate(rng *rand.Rand) string {
 	}
 	t := "/" + strings.Join(segs, "/")
 	if rng.Intn(4) == 0 {
-		t += ":" + pick(rng, verbSufs)
+		if rng.Intn(12) == 0 {
+			t += ":" + pick(rng, longLits[:4])
+		} else {
+			t += ":" + pick(rng, verbSufs)
+		}
 	}
 	return t
 }
@@ -272,6 +287,22 @@ func NearMisses(rng *rand.Rand, in Inst) []string {
 		c := cp()
 		c.Segs[i] = pick(rng, append(lits, strVals...))
 		out = append(out, c.Path())
+	}
+	// a segment extended / shortened by one character, or extended by a tail
+	{
+		i := rng.Intn(n)
+		c := cp()
+		c.Segs[i] = c.Segs[i] + "tail"
+		out = append(out, c.Path())
+		c = cp()
+		c.Segs[i] = c.Segs[i] + "x"
+		out = append(out, c.Path())
+		if len(c.Segs[i]) > 2 {
+			c = cp()
+			_, sz := utf8.DecodeLastRuneInString(c.Segs[i])
+			c.Segs[i] = c.Segs[i][:len(c.Segs[i])-sz]
+			out = append(out, c.Path())
+		}
 	}
 	// verb suffix changed / removed / added
 	if in.Verb != "" {
